@@ -235,11 +235,18 @@ W.contract(Contract('CFG.eliminate_unit_productions', [('self', CFGT)], ret=CFGT
     ensures=eu_post, loops={'0': eu_inv('0'), '0.0': eu_inv('0.0')}))
 
 # ------------------------------------------------------------------ is_empty, remove_useless_symbols (modular over get_generating_symbols)
-Gen = Function('Gen', SetProd.sort(), SetOb.sort(), Ob.sort(), BoolSort())     # x derives a terminal word (terminals of the grammar included)
-# get_generating_symbols is *not* verified (counter-based worklist: bounded stand-in only); its contract is assumed at the call sites below
-W.contract(Contract('CFG.get_generating_symbols', [('self', CFGT)], ret=SetOb,
+# GNS(P, B): the least set of symbols containing B and the head of every production whose body lies in it; "x is generating" = x in GNS(P, Tm)
+# (the epsilon object, which get_generating_symbols uses as a sentinel, excluded).  The axioms of GNS live in contracts/cfg_gen.py, where
+# _get_generating_or_nullable and the memoising wrapper get_generating_symbols are proved against them; here the contract of the wrapper is used
+# at its call sites, at the level of the (V, Tm, S, P) view.  What links the two views: WF gives the wrapper's precondition (no epsilon object in a
+# body; heads are variables, so no terminal is the head of an empty production); the memo field is None or holds the computed set (it is written by
+# the proved wrappers only) - stated as an assumption.
+EPSOB = Const('EPSILON_OBJECT', Ob.sort()); W.axioms.append(isEps(EPSOB))
+GNS = Function('GNS', SetProd.sort(), SetOb.sort(), SetOb.sort())
+def Gen(P, Tm, x_): return And(x_ != EPSOB, Select(GNS(P, Tm), x_))
+W.contract(Contract('CFG.get_generating_symbols', [('self', CFGT)], ret=SetOb, requires=lambda o: WF(o.self),
     ensures=lambda o, r, n: ForAll([x], r[x] == Gen(o.self.P.term, o.self.Tm.term, x))))
-W.contract(Contract('CFG.is_empty', [('self', CFGT)], ret=TBool,
+W.contract(Contract('CFG.is_empty', [('self', CFGT)], ret=TBool, requires=lambda o: WF(o.self),
     ensures=lambda o, r, n: r.term == Not(Gen(o.self.P.term, o.self.Tm.term, o.self.S.term))))
 def rus_post(o, r, n, g):
     G, P, T = o.self, o.self.P, g.T; gen = lambda x_: Gen(P.term, G.Tm.term, x_)
@@ -253,6 +260,7 @@ def rus_post(o, r, n, g):
 W.contract(Contract('CFG.remove_useless_symbols', [('self', CFGT)], ret=CFGT, fresh_result=True, requires=lambda o: WF(o.self), ensures=rus_post,
     ghosts={'T': CFGT}, ghost_witness=lambda o, e: {'T': e.cfg_temp}))
 
+VERIFIED_ELSEWHERE = {'CFG.get_generating_symbols': 'contracts.cfg_gen (CFGGen.get_generating_symbols over CFGGen._get_generating_or_nullable; table builder assumed)'}
 W.ground_sorts = (Ob.sort(),)
 W.special = {}
 _P = 'pyformlang/cfg/cfg.py'
